@@ -307,4 +307,36 @@ theorem joinAll_append_failed (acc : Option Nat) (ms : List Member) (p : Nat) (r
     | passed => simpa [joinAll] using ih acc
     | failed q => simpa [joinAll] using ih (some q)
 
+/-! ### portfolio steps -/
+
+theorem specRaised_eq_nothing_iff (k : FailKind) : specRaised k = .nothing ↔ k.failing = false := by
+  cases k <;> simp [specRaised, FailKind.failing]
+
+theorem toMembers_any_failed (j : Nat) (os : List Outcome) :
+    (toMembers j os).any Member.isFailed = os.any (fun o => decide (o.raised ≠ .nothing)) := by
+  induction os generalizing j with
+  | nil => rfl
+  | cons o os ih =>
+    simp only [toMembers, List.any_cons, ih]
+    by_cases h : o.raised = .nothing <;> simp [h, Member.isFailed]
+
+theorem runFrom_any_raised (s : State) (ms : List Run) :
+    (runFrom s ms).1.any (fun o => decide (o.raised ≠ .nothing)) = ms.any (fun r => r.failure.failing) := by
+  induction ms generalizing s with
+  | nil => rfl
+  | cons r rs ih =>
+    simp only [runFrom, List.any_cons, ih, execRun_raised]
+    congr 1
+    cases r.failure <;> simp [specRaised, FailKind.failing]
+
+theorem Fixed.runFrom_any_raised (s : Fixed.State) (ms : List Run) :
+    (Fixed.runFrom s ms).1.any (fun o => decide (o.raised ≠ .nothing)) =
+      ms.any (fun r => r.failure.failing) := by
+  induction ms generalizing s with
+  | nil => rfl
+  | cons r rs ih =>
+    simp only [Fixed.runFrom, List.any_cons, ih, Fixed.execRun_raised]
+    congr 1
+    cases r.failure <;> simp [specRaised, FailKind.failing]
+
 end ShuttleModel.Failure
